@@ -86,8 +86,44 @@ opes_metad {
   gaussianSigma 0.5
 }
 """
-CONFIGS = {"base": CONFIG, "grid": CONFIG_GRID, "extra": CONFIG_EXTRA}
-PRELUDE = {"extra": ["temperature 300"]}
+# ABF on an extended-Lagrangian variable (eABF): the CZAR estimator is on by default and the state holds
+# samples/gradient and z_samples/z_gradient grids; variants: CZAR off; ABF not the last object (a restraint follows it)
+_EXT_CV = """colvar {
+  name d
+  lowerBoundary 0.0
+  upperBoundary 4.0
+  width 1.0
+  extendedLagrangian on
+  extendedFluctuation 0.5
+  extendedTimeConstant 200
+  distanceZ {
+    main { atomNumbers 1 }
+    ref { dummyAtom (0,0,0) }
+    axis (0,0,1)
+  }
+}
+"""
+_ABF = """abf {
+  name a
+  colvars d
+  fullSamples 2
+%s}
+"""
+_HARM = """harmonic {
+  name h
+  colvars d
+  centers 1.0
+  forceConstant 2.0
+}
+"""
+CONFIG_EABF = _EXT_CV + _ABF % ""
+CONFIG_EABF_NOCZ = _EXT_CV + _ABF % "  CZARestimator off\n"
+CONFIG_EABF_HARM = _EXT_CV + _ABF % "" + _HARM
+CONFIG_HIST = CONFIG_GRID[:CONFIG_GRID.index("metadynamics {")]
+CONFIGS = {"base": CONFIG, "grid": CONFIG_GRID, "extra": CONFIG_EXTRA, "eabf": CONFIG_EABF, "eabf_nocz": CONFIG_EABF_NOCZ,
+           "eabf_harm": CONFIG_EABF_HARM, "hist": CONFIG_HIST}
+PRELUDE = {"extra": ["temperature 300"], "eabf": ["temperature 300"], "eabf_nocz": ["temperature 300"], "eabf_harm": ["temperature 300"]}
+NBINS = 4   # lowerBoundary 0, upperBoundary 4, width 1
 
 
 def scenario(sess, name=NAME, distinct=False):
@@ -774,6 +810,15 @@ def tx_line(text, config="base"):
     if config == "base":
         cfg = "cv:%d b:%d.%d.%d.0,%d.%d.%d.1" % (wid("d"), wid("restraint"), wid("harmonic"), wid("h"),
                                                    wid("metadynamics"), wid("metadynamics"), wid("m"))
+    elif config in ("eabf", "eabf_nocz", "eabf_harm"):
+        lay = "k%d+w%d+k%d+w%d" % (wid("samples"), NBINS, wid("gradient"), NBINS)
+        if config != "eabf_nocz":
+            lay += "+k%d+w%d+k%d+w%d" % (wid("z_samples"), NBINS, wid("z_gradient"), NBINS)
+        cfg = "cv:%d b:%d.%d.%d.0.%s" % (wid("d"), wid("abf"), wid("abf"), wid("a"), lay)
+        if config == "eabf_harm":
+            cfg += ",%d.%d.%d.0" % (wid("restraint"), wid("harmonic"), wid("h"))
+    elif config == "hist":
+        cfg = "cv:%d b:%d.%d.%d.0.k%d+w%d" % (wid("d"), wid("histogram"), wid("histogram"), wid("hi"), wid("grid"), NBINS)
     elif config == "extra":
         # ALB: configuration only; OPES: key opes_metad_<name>, nine keyword/value pairs, the block hills { kernels }
         cfg = "cv:%d b:%d.%d.%d.0,%d.%d.%d.0.k%d+w18+b%d" % (
@@ -788,15 +833,29 @@ def tx_line(text, config="base"):
     return "TX %s t:%s" % (cfg, ",".join(toks) or "-")
 
 
-def tb_line(data):
-    """the case line for the binary-reader model (coq/C11/BinReadModel.v): the objects of CONFIG in the order of the
-    module's lists (variable d; harmonic h before metadynamics m) and the bytes of the (damaged) file"""
+def tb_line(data, config="base"):
+    """the case line for the binary-reader model (coq/C11/BinReadModel.v): the objects of the configuration in the order of
+    the module's lists and the bytes of the (damaged) file; None for configurations with data the model does not have
+    (grids of metadynamics, OPES)"""
     hx = lambda t: t.encode().hex()
-    return "TB n:1 b:%s.%s.0.1,%s.%s.1.1 d:%s" % (hx("restraint"), hx("harmonic"), hx("metadynamics"), hx("metadynamics"), data.hex())
+    if config == "base":
+        bs = "%s.%s.0.1,%s.%s.1.1" % (hx("restraint"), hx("harmonic"), hx("metadynamics"), hx("metadynamics"))
+    elif config in ("eabf", "eabf_nocz", "eabf_harm"):
+        lay = "k%s+o%d+k%s+o%d" % (hx("samples"), NBINS, hx("gradient"), NBINS)
+        if config != "eabf_nocz":
+            lay += "+k%s+o%d+k%s+o%d" % (hx("z_samples"), NBINS, hx("z_gradient"), NBINS)
+        bs = "%s.%s.0.1.%s" % (hx("abf"), hx("abf"), lay)
+        if config == "eabf_harm":
+            bs += ",%s.%s.0.1" % (hx("restraint"), hx("harmonic"))
+    elif config == "hist":
+        bs = "%s.%s.0.1.k%s+o%d" % (hx("histogram"), hx("histogram"), hx("grid"), NBINS)
+    else:
+        return None
+    return "TB n:1 b:%s d:%s" % (bs, data.hex())
 
 
 def run_damage_grid(run, vsim, d, quick, model):
-    for cfgname in ("grid", "extra"):
+    for cfgname in ("grid", "extra", "eabf", "eabf_nocz", "eabf_harm", "hist"):
         run_damage_config(run, vsim, d, quick, model, cfgname)
 
 
@@ -820,13 +879,16 @@ def run_damage_config(run, vsim, d, quick, model, cfgname):
                       {"kind": "load", "format": "text", "config": cfgname, "cut": n})
         return
     if quick:
-        offs = set(r.sample(range(n), min(n, 90)))
+        offs = set(r.sample(range(n), min(n, 90 if cfgname in ("grid", "extra") else 45)))
         for a, b, kw in obj_blocks:
             offs |= {a, a + 1, b - 1, b, b + 1, (a + b) // 2}
         for m in re.finditer(rb"grid_parameters|hills_energy|\ngrid\n|\}\n [-0-9]", text):
             offs |= {m.start(), m.start() + 3, m.end(), m.end() + 1, m.end() + 9}
     else:
-        offs = set(range(n))
+        # every second offset, every offset around the block boundaries
+        offs = set(range(0, n, 2))
+        for a, b, kw in obj_blocks:
+            offs |= set(range(max(0, a - 12), min(n, a + 4))) | set(range(max(0, b - 3), min(n, b + 3)))
     verdicts = []
     for cut in sorted(o for o in offs if 0 <= o < n):
         open(p, "wb").write(text[:cut])
@@ -854,8 +916,21 @@ def run_damage_config(run, vsim, d, quick, model, cfgname):
     nb = len(binary)
     pat = struct.pack("<Q", 4) + b"hill"
     hill_starts = [m.start() for m in re.finditer(re.escape(pat), binary)]
-    boffs = set(range(5, nb)) if not quick else (set(r.sample(range(5, nb), min(nb - 5, 60))) | set(range(max(5, nb - 16), nb)))
+    if quick:
+        # a sample, the last bytes, and every byte of every keyword record (8-byte length + characters) of the state and
+        # of the 9 bytes after it: where a reader decides between "key not there" and "key cut"
+        boffs = set(r.sample(range(5, nb), min(nb - 5, 30))) | set(range(max(5, nb - 16), nb))
+        for m in re.finditer(rb"[\x01-\x20]\x00{7}[a-z_]{3,22}", binary):
+            if struct.unpack("<Q", binary[m.start():m.start() + 8])[0] == m.end() - m.start() - 8:
+                boffs |= set(range(max(5, m.start() - 1), min(nb, m.end() + 9)))
+        if cfgname in ("grid", "extra") and len(boffs) > 150:
+            # (no binary model for these: a sample; the thorough tier takes every offset)
+            boffs = set(r.sample(sorted(boffs), 150)) | set(range(max(5, nb - 16), nb))
+    else:
+        # every offset (the binary states of these configurations are small); OPES: every second one
+        boffs = set(range(5, nb)) if cfgname != "extra" else (set(range(5, nb, 2)) | set(range(max(5, nb - 40), nb)))
     nacc = 0
+    bverdicts = []
     for cut in sorted(boffs):
         open(p, "wb").write(binary[:cut])
         rc, ld = try_load_(vsim, d, "dmg.colvars.state", cfgname)
@@ -864,13 +939,25 @@ def run_damage_config(run, vsim, d, quick, model, cfgname):
         if rc >= 128 or rc == 124 or rc < 0 or ld is None:
             run.violation("load.crash:binary-prefix", "loading the first %d of %d bytes of a valid binary state (%s configuration) kills or hangs the process (rc=%d)" % (cut, nb, cfgname, rc),
                           {"kind": "load", "format": "binary", "config": cfgname, "cut": cut})
-        elif ld[0] == "ok":
+        else:
+            bverdicts.append((cut, "ok" if ld[0] == "ok" else "err"))
+        if not (rc >= 128 or rc == 124 or rc < 0 or ld is None) and ld[0] == "ok":
             nacc += 1
             sig = "load.binary-prefix-accepted:at-hill-boundary" if cut in hill_starts else "load.binary-prefix-accepted:" + cfgname
             run.violation(sig, "a binary state (%s configuration) cut at byte %d of %d loads without any error" % (cfgname, cut, nb),
                           {"kind": "load", "format": "binary", "config": cfgname, "cut": cut})
+    nbdis = None
+    if bverdicts and tb_line(b"", cfgname) is not None:
+        blines = [tb_line(binary[:cut], cfgname) for cut, _ in bverdicts]
+        rcm, mout, em = V.run_lines(model, blines, timeout=900)
+        nbdis = 0
+        for (cut, verdict), mo in zip(bverdicts, mout + ["<none>"] * (len(blines) - len(mout))):
+            if mo.strip() != verdict:
+                nbdis += 1
+                run.mismatch("binary-reader-tie", {"config": cfgname, "cut": cut, "of": nb}, verdict, mo.strip())
     run.cov["correspondence"]["damage_" + cfgname] = {"text_prefixes": len(verdicts), "text_reader_model_disagreements": ndis,
-                                                      "binary_prefixes": len(boffs), "binary_prefix_accepted": nacc}
+                                                      "binary_prefixes": len(boffs), "binary_prefix_accepted": nacc,
+                                                      "binary_reader_model_disagreements": nbdis}
     if os.path.exists(p):
         os.remove(p)
 
@@ -971,7 +1058,7 @@ def run_damage(run, vsim, d, quick, model=None):
                     run.mismatch("binary-reader-tie", {"cut": cut, "of": n, "hill_starts": hill_starts[:3]}, verdict, mo.strip())
             stats["binary_reader_model_cases"] = len(lines)
             stats["binary_reader_model_disagreements"] = ndis
-        flips = [(r.randrange(n), r.randrange(8)) for j in range(60 if quick else 3000)]
+        flips = [(r.randrange(n), r.randrange(8)) for j in range(60 if quick else 1000)]
         if nm == "text":
             # aimed: every byte of the configuration block (step, dt, version, units and the separators)
             a0 = data.find(b"{"); b0 = data.find(b"}")
